@@ -76,7 +76,7 @@ CHECKS = {
   "'Touched' is defined per call by the reference model; table-like siblings are compared as a set because printing follows recorded header positions; empty implicit tables / arrays of tables are invisible but kept; comments after a comma belong to the following array element, so marker comments sit before the comma.",
   "explicit-state BFS over real edit call histories; step-wise conformance with a reference tree plus verbatim-fragment oracle"),
  "C18": ("exploration", "cfg", "5/C18",
-  "The cargo feature matrix is enumerated completely (quick: 10 configurations, thorough: 20: toml_edit default / perf / serde / unbounded x parse+display / parse-only / display-only; toml default / preserve_order x parse+display / parse-only / display-only, with perf and unbounded underneath); every configuration must build; one deterministic battery (all documents of <= 4 tokens, all statement sequences <= 3, range-edge literals, decor samples, API-built documents, toml::Value trees in every insertion order, every toml::Map call history of <= 4 calls over 4 keys, equality of same-content tables, 7 nesting constructs x 11 depths up to 200) runs in each, every library call guarded so that a panic is that configuration's result; block digests of verdicts, trees, printed text and sorted observations are compared between all configurations that can compute them, a differing block is dumped to locate the item.",
+  "The cargo feature matrix is enumerated completely (quick: 10 configurations, thorough: 20: toml_edit default / perf / serde / unbounded x parse+display / parse-only / display-only; toml default / preserve_order x parse+display / parse-only / display-only, with perf and unbounded underneath); every configuration must build; one deterministic battery (all documents of <= 4 tokens, all statement sequences <= 3, range-edge literals, decor samples, API-built documents, toml::Value trees in every insertion order, every toml::Map call history of <= 4 calls over 4 keys, equality of same-content tables, 7 nesting constructs x 11 depths up to 200, a foreign serde source with wrong size hints, 20 480 floats and the i64 lattice through the number writers, source order of keys under preserve_order) runs in each, every library call guarded so that a panic is that configuration's result; block digests of verdicts, trees, printed text and sorted observations are compared between all configurations that can compute them, a differing block is dumped to locate the item.",
   "Documented exceptions: order-dependent kinds are compared only between configurations with the same map ordering; the deep-nesting kind is compared only between configurations with the same boundedness, and the unbounded ones must accept every deep document. A battery process that dies is a violation of that configuration, not a machinery error. The configuration space is enumerated completely, the battery is a bounded slice.",
   "exhaustive enumeration of the feature matrix x a fixed battery; cross-configuration digest equality"),
  "C19": ("exploration", "prog", "5/C19",
@@ -128,7 +128,7 @@ def main():
         "engines": engines,
         "checks": checks,
         "not_applicable": na,
-        "notes": "Exit codes: 0 held (possibly with KNOWN-FINDING lines), 1 VIOLATION, 2 MACHINERY-ERROR (never a verdict). Known findings and fixed defects: /verif/known_findings.txt. Changes used to test the checks: /verif/seeded/ (120 property-breaking changes written by sub-agents, RESULTS.md = detection matrix), /verif/mutants/ (own mutants incl. release-only ones), /verif/benign/ (40 property-preserving changes, RESULTS.md = silence matrix).",
+        "notes": "Exit codes: 0 held (possibly with KNOWN-FINDING lines), 1 VIOLATION, 2 MACHINERY-ERROR (never a verdict). Known findings and fixed defects: /verif/known_findings.txt. Changes used to test the checks: /verif/seeded/ (198 property-breaking changes written by sub-agents, RESULTS.md = detection matrix), /verif/mutants/ (own mutants incl. release-only ones), /verif/benign/ (40 property-preserving changes, RESULTS.md = silence matrix).",
     }
     if not na:
         del m["not_applicable"]
